@@ -298,8 +298,15 @@ func runDepClosure(c *Ctx) {
 				}
 			}
 			if len(baseline) > 0 && !baseline[g.Name] {
-				// a new helper: its body is judged where it is called (inlining views); keep following its callees
-				c.R.Held(rule, g.Name, "new-helper", c.pos(g), "reached from "+f.Name+"; not in the baseline: judged at its call sites by the inlining views")
+				// a new function: its body is judged where it is called, on the view that walks through new functions of
+				// the caller's package (which decides the caller's obligations); keep following its callees. A new
+				// function that view cannot walk through (another package, or recursive among new functions) is code
+				// nobody has looked at.
+				if g.Pkg == f.Pkg && !c.An.isRecursiveAmongNew(g.SSA) {
+					c.R.Held(rule, g.Name, "new-helper", c.pos(g), "reached from "+f.Name+"; not in the baseline: judged at its call sites by the inlining views")
+					continue
+				}
+				c.R.Unproven(rule, g.Name, "unexamined", c.pos(g), "the examined code of this property calls the new function "+g.Name+" (from "+f.Name+"), which is not walked through at its call sites (it is in another package, or recursive): no rule of this check examines it")
 				continue
 			}
 			c.R.Unproven(rule, g.Name, "unexamined", c.pos(g), "the examined code of this property calls "+g.Name+" (from "+f.Name+"), and no rule of this check examines that function: a change there would go unnoticed")
